@@ -29,7 +29,7 @@ ASSUMPTIONS = [
 ]
 
 INJECT = ["none", "none", "raise_value", "raise_runtime", "raise_keyboard", "raise_abort", "raise_value_empty", "raise_keyboard_empty",
-          "raise_assert_empty", "unknown_param", "probe_no_key", "nonfinite_param"]
+          "raise_assert_empty", "unknown_param", "probe_no_key", "nonfinite_param", "odd_param", "odd_param"]
 NONFINITE = [float("inf"), float("-inf"), float("nan")]
 DETAILS = ["hash", "repr", "context", "all", "hash,repr"]
 
@@ -71,6 +71,17 @@ def materialise(case: Dict[str, Any]) -> Dict[str, Any]:
             else:
                 (c["nodes"][at].get("params") or {}).pop(pname, None)
                 c["ctx"][pname] = value
+            applied, c["fault_index"] = inj, at
+    elif inj == "odd_param":
+        # a legal but unusual Python value (mixed-key dict, set, bytes, numpy array, lone surrogate ...) among the traced parameters
+        name = observe.ODD_NAMES[pos % len(observe.ODD_NAMES)]
+        idxs = [i for i, n in enumerate(c["nodes"]) if n["p"] in ("VEchoProbe", "FloatMultiplyOperation", "FloatAddOperation", "FloatMultiplyOperationWithDefault", "VInPlaceScaleOp")
+                and not n.get("sweep")]
+        if idxs:
+            at = idxs[pos % len(idxs)]
+            pname = M.LIB[c["nodes"][at]["p"]]["params"][0][0]
+            (c["nodes"][at].get("params") or {}).pop(pname, None)
+            c["ctx"][pname] = {"$odd": name}
             applied, c["fault_index"] = inj, at
     elif inj == "unknown_param":
         idxs = [i for i, n in enumerate(c["nodes"]) if M.describe(n)["kind"] != "ctx" and not n.get("sweep")]
@@ -268,7 +279,7 @@ def valid(case: Any) -> bool:
 
 def label_requirements(tier: str) -> Dict[str, Any]:
     req: Dict[str, Any] = {"mode:file": 0.3, "mode:dir": 0.3, "ok": 0.15, "fails": 0.3}
-    for f in ("raise_value", "raise_keyboard", "raise_abort", "raise_value_empty", "raise_keyboard_empty", "raise_assert_empty", "nonfinite_param",
+    for f in ("raise_value", "raise_keyboard", "raise_abort", "raise_value_empty", "raise_keyboard_empty", "raise_assert_empty", "nonfinite_param", "odd_param",
               "unknown_param", "probe_no_key", "unresolved_parameter", "type_gate", "processor_exception"):
         req["fault:" + f] = 0.015 if f != "nonfinite_param" else 0.008
         for d in ("hash", "repr", "context", "all"):
